@@ -8,6 +8,7 @@ import (
 	"regexp"
 	"runtime"
 	"strings"
+	"sync/atomic"
 	"testing"
 	"testing/synctest"
 	"time"
@@ -68,6 +69,9 @@ func vfQuiesce() { synctest.Wait() }
 // has not finished after d it probes the process-wide stream tracker's lock: when that lock cannot be taken on several
 // attempts a violation is recorded (the replay file is the case) and the process exits with status 1; when the lock is
 // free the hang is somewhere else and the process exits with status 3 (inconclusive).
+// vfCurrentSMs: the shard managers of the world the running case built (probed by vfLockWatchdog).
+var vfCurrentSMs atomic.Pointer[[]*shardManagerImpl]
+
 func vfLockWatchdog(st *vfshared.Stats, prop, part string, c any, d time.Duration) (stop func()) {
 	done := make(chan struct{})
 	go func() {
@@ -76,25 +80,54 @@ func vfLockWatchdog(st *vfshared.Stats, prop, part string, c any, d time.Duratio
 			return
 		case <-time.After(d):
 		}
+		type probe struct {
+			name string
+			try  func() bool
+			rel  func()
+		}
 		tr := GetGlobalStreamTracker()
-		stuck := 0
+		probes := []probe{{"the process-wide stream tracker's lock", tr.mu.TryLock, tr.mu.Unlock}}
+		if sms := vfCurrentSMs.Load(); sms != nil {
+			for _, sm := range *sms {
+				sm := sm
+				probes = append(probes,
+					probe{"the shard manager's local-shard lock", sm.mutex.TryLock, sm.mutex.Unlock},
+					probe{"the shard manager's ack-channel registry lock", sm.localAckChannelsMu.TryLock, sm.localAckChannelsMu.Unlock},
+					probe{"the shard manager's receiver-cancel-function registry lock", sm.localReceiverCancelFuncsMu.TryLock, sm.localReceiverCancelFuncsMu.Unlock},
+					probe{"the shard manager's delivery-channel registry lock", sm.remoteSendChannelsMu.TryLock, sm.remoteSendChannelsMu.Unlock},
+					probe{"the shard manager's active-receiver registry lock", sm.activeReceiversMu.TryLock, sm.activeReceiversMu.Unlock},
+					probe{"the shard manager's remote-node-state lock", sm.remoteNodeStatesMu.TryLock, sm.remoteNodeStatesMu.Unlock})
+				if sm.intraMgr != nil {
+					probes = append(probes, probe{"the intra-proxy manager's stream-table lock", sm.intraMgr.streamsMu.TryLock, sm.intraMgr.streamsMu.Unlock})
+				}
+			}
+		}
+		stuckCount := make([]int, len(probes))
 		for i := 0; i < 5; i++ {
-			if tr.mu.TryLock() {
-				tr.mu.Unlock()
-			} else {
-				stuck++
+			for k, p := range probes {
+				if p.try() {
+					p.rel()
+				} else {
+					stuckCount[k]++
+				}
 			}
 			time.Sleep(300 * time.Millisecond)
 		}
-		if stuck == 5 {
+		var held []string
+		for k, n := range stuckCount {
+			if n == 5 {
+				held = append(held, probes[k].name)
+			}
+		}
+		if len(held) > 0 {
 			p := vfshared.WriteReplay(prop, part, c)
-			msg := fmt.Sprintf("the case did not finish within %s of real time and the process-wide stream tracker's lock is held (never released on some path): every relay loop that reports to the tracker blocks forever, handlers never return", d)
+			msg := fmt.Sprintf("the case did not finish within %s of real time and %s cannot be taken (held for good: leaked or dead-locked); everything that needs it blocks forever", d, strings.Join(held, " and "))
 			st.Violation(p, msg)
 			st.Flush()
 			fmt.Fprintf(os.Stderr, "%s violated: %s (replay %s)\n", prop, msg, p)
 			os.Exit(1)
 		}
-		fmt.Fprintf(os.Stderr, "INCONCLUSIVE: the case did not finish within %s of real time, but the stream tracker's lock is free\n", d)
+		fmt.Fprintf(os.Stderr, "INCONCLUSIVE: the case did not finish within %s of real time, but none of the probed locks is held\n", d)
 		os.Exit(3)
 	}()
 	return func() { close(done) }
